@@ -8,7 +8,8 @@
 (*            punctuation the grammar gives meaning to, a non-ASCII BMP    *)
 (*            character, a non-BMP character, a control byte and a byte    *)
 (*            that is invalid UTF-8), placed at the start of a line, after *)
-(*            an indent, and as a posting line under a transaction header. *)
+(*            an indent, as a posting line under a transaction header and  *)
+(*            as an indented line under a directive.                       *)
 (* "lexemes": every sequence of <= MaxLen hostile lexemes (huge exponents, *)
 (*            40-digit numbers, unterminated quotes, nested parentheses,   *)
 (*            valid and impossible dates, operators, directive keywords,   *)
@@ -36,19 +37,21 @@ Cat(ss, sep) == IF Len(ss) = 0 THEN "" ELSE IF Len(ss) = 1 THEN ss[1] ELSE ss[1]
 RECURSIVE Seqs(_, _)
 Seqs(k, n) == IF n = 0 THEN {<<>>} ELSE LET S == Seqs(k, n - 1) IN S \cup { Append(s, i) : s \in { x \in S : Len(x) = n - 1 }, i \in 1..k }
 
-Placements == {"start", "indent", "posting"}
-Layouts == {"line", "posting", "lines", "amounts"}
+Placements == {"start", "indent", "posting", "sub"}
+Layouts == {"line", "posting", "lines", "amounts", "sub"}
 
 TextOfChars(s, pl) ==
     LET body == Cat([i \in 1..Len(s) |-> Chars[s[i]]], "") IN
     CASE pl = "start"   -> body
       [] pl = "indent"  -> "    " \o body
+      [] pl = "sub"     -> "account a:b\n  " \o body            \* an indented line under a directive (its "subdirectives"); no final newline
       [] OTHER          -> "2024-01-01 x\n    " \o body
 
 TextOfLexemes(s, lay) ==
     LET ws == [i \in 1..Len(s) |-> Lexemes[s[i]]] IN
     CASE lay = "line"    -> Cat(ws, " ")
       [] lay = "posting" -> "2024-01-01 x\n    " \o Cat(ws, "  ")
+      [] lay = "sub"     -> "commodity $\n  " \o Cat(ws, " ")
       [] lay = "amounts" -> "2024-01-01 x\n" \o Cat([i \in 1..Len(ws) |-> "    a:b  " \o ws[i]], "\n") \o "\n    c:d  1 USD\n"
       [] OTHER           -> Cat(ws, "\n")
 
